@@ -110,7 +110,36 @@ func (k c03) Run(c *rt.Ctx) {
 	style := gen.Style{Paren: []int{0, 0, 1, 3}[r.Intn(4)], R: r.Fork(), Case: r.Chance(1, 4)}
 	query := stmt.Text(style)
 	sizes := []int{pickBatch(c), pickBatch(c), pickBatch(c)}
-	if r.Chance(1, 14) {
+	if c.Case%24 == 5 {
+		// text of several bytes per character: lengths, case mapping, splitting and slicing give
+		// the same answer per pair and per chunk
+		c.Rec.Inc("multibyte_text")
+		vals := []string{"\u00e9", "a\u00e9", "na\u00efve", "\u65e5\u672c\u8a9e", "\u20acuro", "\u00df", "x", "", "abc", "\u043a\u043b\u044e\u0447", "\u00e9\u00e9\u00e9\u00e9", "e\u0301"}
+		var ps []refstore.Pair
+		for i, n := 0, r.Range(3, 40); i < n; i++ {
+			ps = append(ps, refstore.Pair{K: fmt.Sprintf("\u043a%02d%s", i, []string{"", "\u00e9", "\u65e5"}[r.Intn(3)]), V: vals[r.Intn(len(vals))]})
+		}
+		st = &gen.Store{Family: "multibyte", Pairs: refstore.New(ps).Pairs()}
+		k0, v0 := gen.Key(), gen.Value()
+		pre := gen.Bin("^=", k0, gen.Str("\u043a"))
+		switch r.Intn(5) {
+		case 0:
+			stmt = &gen.Stmt{Kind: "select", Where: pre, Fields: []gen.Field{{E: k0}, {E: gen.Call("strlen", v0), Alias: "n"}, {E: gen.Call("strlen", k0), Alias: "kn"}}}
+		case 1:
+			stmt = &gen.Stmt{Kind: "select", Where: gen.And(pre, gen.Bin([]string{">", ">=", "=", "<"}[r.Intn(4)], gen.Call("strlen", v0), gen.Int(int64(r.Range(1, 8))))), Fields: []gen.Field{{E: k0}, {E: v0}}}
+		case 2:
+			stmt = &gen.Stmt{Kind: "select", Where: pre, Fields: []gen.Field{{E: gen.Call("strlen", v0), Alias: "n"}, {E: gen.Call("count", gen.Int(1)), Alias: "c"}}, GroupBy: []string{"n"}}
+		case 3:
+			stmt = &gen.Stmt{Kind: "select", Where: pre, Fields: []gen.Field{{E: k0}, {E: gen.Call("upper", v0), Alias: "u"}, {E: gen.Call("lower", k0), Alias: "l"}, {E: gen.Call("strlen", gen.Call("upper", v0)), Alias: "n"}}, OrderBy: []gen.OrderItem{{Name: "n", Desc: r.Bool()}, {Name: "l"}}}
+		default:
+			stmt = &gen.Stmt{Kind: "select", Where: pre, Fields: []gen.Field{{E: k0}, {E: gen.Call("strlen", gen.Bin("+", v0, k0)), Alias: "n"}, {E: gen.Call("len", gen.Call("split", v0, gen.Str("\u00e9"))), Alias: "parts"}, {E: gen.Call("sum", gen.Call("strlen", v0)), Alias: "s"}}}
+			stmt.Fields = stmt.Fields[:3]
+		}
+		if r.Chance(1, 3) && len(stmt.GroupBy) == 0 {
+			stmt.HasLim, stmt.Start, stmt.Count = true, r.Intn(3), r.Range(1, 9)
+		}
+		query = stmt.Text(gen.Plain)
+	} else if r.Chance(1, 14) {
 		// float group values that agree in six decimals, or are the two zeros: both modes form
 		// the same groups
 		c.Rec.Inc("close_float_groups")
